@@ -658,8 +658,11 @@ func reachableAll(labels []string, byLabel map[string][]*symex.VC, opts symex.Di
 			}
 			vcs := append([]*symex.VC(nil), byLabel[label]...)
 			sort.SliceStable(vcs, func(i, j int) bool { return smt.Size(vcs[i].PC...) < smt.Size(vcs[j].PC...) })
-			if len(vcs) > 4 {
-				vcs = vcs[:4]
+			if pass == 0 && len(vcs) > 6 {
+				vcs = vcs[:6]
+			}
+			if len(vcs) > 24 {
+				vcs = vcs[:24]
 			}
 			for _, vc := range vcs {
 				wg.Add(1)
